@@ -291,7 +291,7 @@ def norm_stub(text):
     try:
         tree = ast.parse(text)
     except SyntaxError:
-        return ["<unparsable>", text]
+        return ["<unparsable>"]
     out = []
 
     def visit(body, prefix):
@@ -441,7 +441,8 @@ def execute(plan):
                         viol("C10.none", None, dict(site, stderr=err[-300:]), "nothing is decodable but no stderr line says that no traces were found for %s" % modname)
         return {
             "violations": V,
-            "digest": R.digest([sorted(map(repr, distinct)), len(stale), rc, bool(exc), norm_stub(out), plan["command"]]),
+            "digest": R.digest([sorted(repr([r[0], r[1]] + [json.dumps(c01._norm_json(json.loads(x)), sort_keys=True) if x else None for x in r[2:]]) for r in distinct),
+                                len(stale), rc, bool(exc), norm_stub(out), plan["command"]]),
             "sig": R.digest([[ph["churn"] for ph in plan["phases"]], plan["command"]["cmd"], len(stale) > 0, len(good) > 0]),
             "nontrivial": bool(stale),
             "evaluated": evaluated,
